@@ -1539,27 +1539,30 @@ fn judge_sighash_types(out: &mut Out, case: &Case) {
     }
 }
 
-/// A signature whose sighash byte contradicts the input's `sighash_type` field must not be
-/// used: every finalizing entry point has to refuse the input (BIP 174: a signature that does
-/// not match the PSBT's sighash type must not be added / finalized).
-fn judge_sighash_mismatch(out: &mut Out, spec: &Spec, rng: &mut Rng) {
+/// OBSERVATION (not a judge: the property does not say that the finalizer must refuse it, and the
+/// spend is valid): what each entry point does with signatures whose sighash byte contradicts the
+/// input's `sighash_type` field (field SINGLE, signatures ALL / DEFAULT).  The histories go through
+/// the normal stream, so the Lean state machine is compared step by step (`C psbtstep`, incl. the
+/// `sanity_check` of the deprecated finalize and of extract) and every finalized input is verified
+/// by the Lean verifySpend (`J spend`).
+fn observe_sighash_mismatch(out: &mut Out, spec: &Spec, rng: &mut Rng, judged: &mut BTreeSet<String>) {
     let case = build_case(vec![spec.clone()], rng);
-    let mut p = case.psbt0.clone();
-    for op in progress_ops(&case, 0) { apply(&case, &mut p, &op); }
-    if spec.kind == Kind::Tr && spec.leaves.is_empty() { apply(&case, &mut p, &Op::KeySig(0, true)); }
+    let mut base: Vec<Op> = progress_ops(&case, 0);
+    if spec.kind == Kind::Tr && spec.leaves.is_empty() { base.push(Op::KeySig(0, true)); }
     // reference: without the contradiction the input finalizes
-    { let mut q = p.clone(); if apply(&case, &mut q, &Op::Fin) != "ok" { out.count("sighash-mismatch skipped (not finalizable)"); return; } }
-    let (field, fname, sname): (PsbtSighashType, &str, &str) = if spec.kind == Kind::Tr { (TapSighashType::All.into(), "ALL", "DEFAULT") } else { (EcdsaSighashType::Single.into(), "SINGLE", "ALL") };
-    p.inputs[0].sighash_type = Some(field);
+    { let mut q = case.psbt0.clone(); for op in &base { apply(&case, &mut q, op); } if apply(&case, &mut q, &Op::Fin) != "ok" { out.count("observation: sighash-mismatch skipped (not finalizable)"); return; } }
+    base.push(Op::SighashField(0));
     for (name, ops) in [("finalize_mut", vec![Op::Fin]), ("finalize_mall_mut", vec![Op::FinMall]), ("finalize_inp_mut", vec![Op::FinInp(0)]),
                         ("finalize_inp_mall_mut", vec![Op::FinInpMall(0)]), ("deprecated-finalize", vec![Op::OldFin]), ("extract-after-finalize_mut", vec![Op::Fin, Op::Extract])] {
-        let mut q = p.clone();
+        let mut hist = base.clone();
+        hist.extend(ops.iter().cloned());
+        if hist.len() > 12 { let cut = hist.len() - 12; hist.drain(1..1 + cut); }
+        let mut q = case.psbt0.clone();
         let mut last = String::new();
-        for op in &ops { last = apply(&case, &mut q, op); }
-        let refused = !last.starts_with("ok");
-        out.count(&format!("sighash-mismatch {} {}", name, if refused { last.split('@').next().unwrap().to_string() } else { "ACCEPTED".into() }));
-        verdict(out, "sighash-mismatch-refused", &format!("{} {} field={} sig={}", name, spec.tmpl, fname, sname),
-            if refused { None } else { Some("signature-with-contradicting-sighash-type-used".into()) });
+        for op in &hist { last = apply(&case, &mut q, op); }
+        let class = if last.starts_with("ok") { "USED".to_string() } else { format!("refused:{}", last.split('@').next().unwrap().trim_start_matches("err:")) };
+        out.count(&format!("observation: sighash-mismatch {} {} {}", if spec.kind == Kind::Tr { "taproot" } else { "ecdsa" }, name, class));
+        run_history(out, &case, &hist, judged);
     }
 }
 
@@ -1601,6 +1604,66 @@ fn judge_rawpkh(out: &mut Out, spec: &Spec, rng: &mut Rng) {
             let ss = q.inputs[0].final_script_sig.clone().unwrap_or_default();
             let w = q.inputs[0].final_script_witness.clone().unwrap_or_default();
             judge_spend_at(out, &case, &q.unsigned_tx, 0, &ss, &w, &format!("rawpkh {}", id));
+        }
+    }
+}
+
+/// `C psbtupd`: the redeem_script / witness_script recorded by `update_input_with_descriptor`,
+/// byte for byte, against `Model/PsbtUpdate.updateScripts` over C16's descriptor model (real
+/// SHA256 / HASH160 on the Lean side).  Descriptors from the shared AST generator with the
+/// shared atom keys (compressed and, in legacy contexts, uncompressed); the atom tables travel
+/// on the line.
+fn emit_update_corr(out: &mut Out, rng: &mut Rng, thorough: bool) {
+    struct Single;
+    impl Translator<PublicKey> for Single {
+        type TargetPk = DefiniteDescriptorKey;
+        type Error = ();
+        fn pk(&mut self, pk: &PublicKey) -> Result<DefiniteDescriptorKey, ()> { DefiniteDescriptorKey::from_str(&pk.to_string()).map_err(|_| ()) }
+        fn sha256(&mut self, h: &sha256::Hash) -> Result<sha256::Hash, ()> { Ok(*h) }
+        fn hash256(&mut self, h: &hash256::Hash) -> Result<hash256::Hash, ()> { Ok(*h) }
+        fn ripemd160(&mut self, h: &ripemd160::Hash) -> Result<ripemd160::Hash, ()> { Ok(*h) }
+        fn hash160(&mut self, h: &hash160::Hash) -> Result<hash160::Hash, ()> { Ok(*h) }
+    }
+    let mut emit = |out: &mut Out, wire: String, d: &Descriptor<PublicKey>, keys: Vec<u32>, hs: Vec<(HK, u32)>| {
+        let dd = match d.translate_pk(&mut Single) { Ok(x) => x, Err(_) => return };
+        let spk = d.script_pubkey();
+        let prev = Transaction { version: transaction::Version::TWO, lock_time: absolute::LockTime::ZERO, input: vec![],
+            output: vec![TxOut { value: Amount::from_sat(5000), script_pubkey: spk.clone() }] };
+        let tx = Transaction { version: transaction::Version::TWO, lock_time: absolute::LockTime::ZERO,
+            input: vec![TxIn { previous_output: OutPoint { txid: prev.compute_txid(), vout: 0 }, script_sig: ScriptBuf::new(), sequence: Sequence::MAX, witness: Witness::new() }],
+            output: vec![TxOut { value: Amount::from_sat(4000), script_pubkey: spk }] };
+        let mut p = Psbt::from_unsigned_tx(tx).unwrap();
+        p.inputs[0].non_witness_utxo = Some(prev);
+        if p.update_input_with_descriptor(0, &dd).is_err() { out.count("psbtupd update-refused"); return; }
+        let mut ks: Vec<u32> = keys; ks.sort(); ks.dedup();
+        let mut hh = hs; hh.sort(); hh.dedup();
+        let kt = if ks.is_empty() { "-".to_string() } else { ks.iter().map(|k| format!("{}={}", k, hex(&ast::full_key(*k).to_bytes()))).collect::<Vec<_>>().join(",") };
+        let ht = if hh.is_empty() { "-".to_string() } else { hh.iter().map(|(k, h)| format!("{}:{}={}", k.name(), h, hex(&ast::hash_value(*k, *h)))).collect::<Vec<_>>().join(",") };
+        let f = |s: &Option<ScriptBuf>| s.as_ref().map(|x| hex(x.as_bytes())).unwrap_or("none".into());
+        out.line(&format!("C psbtupd {} {} {}", wire, kt, ht), &format!("{} {}", f(&p.inputs[0].redeem_script), f(&p.inputs[0].witness_script)));
+        // the output updater writes the same scripts
+        let mut q = p.clone();
+        let same = q.update_output_with_descriptor(0, &dd).is_ok() && q.outputs[0].redeem_script == p.inputs[0].redeem_script && q.outputs[0].witness_script == p.inputs[0].witness_script;
+        verdict(out, "update-output-consistent", &format!("{} same-scripts-as-input", wire), if same { None } else { Some("differs".into()) });
+    };
+    for (ctx, wraps) in [(CtxK::Segwitv0, vec![(Wrap::Wsh, "wsh(@)"), (Wrap::ShWsh, "sh(wsh(@))")]), (CtxK::Legacy, vec![(Wrap::Sh, "sh(@)")])] {
+        let atoms = ast::default_atoms(ctx, !thorough);
+        let frags = ast::enumerate(ctx, &atoms, if thorough { 3 } else { 2 }, if thorough { 40 } else { 12 }, rng);
+        for t in frags.iter().filter(|t| t.base == miniscript::miniscript::types::Base::B) {
+            let mut rp = vec![]; t.node.rawpkhs(&mut rp);
+            if !rp.is_empty() { continue; }
+            for (w, pat) in &wraps {
+                if let Some(d) = desc::build_desc(*w, &t.node, 0) {
+                    let mut ks = vec![]; t.node.keys(&mut ks);
+                    let mut hs = vec![]; t.node.hashes(&mut hs);
+                    emit(out, pat.replace('@', &t.node.wire()), &d, ks, hs);
+                }
+            }
+        }
+    }
+    for k in [0u32, 1, 2, 100, 101] {
+        for (w, pat) in [(Wrap::Pkh, "pkh(@)"), (Wrap::Wpkh, "wpkh(@)"), (Wrap::ShWpkh, "sh(wpkh(@))")] {
+            if let Some(d) = desc::build_desc(w, &ast::Node::True, k) { emit(out, pat.replace('@', &k.to_string()), &d, vec![k], vec![]); }
         }
     }
 }
@@ -1745,11 +1808,12 @@ pub fn run(out: &mut Out, thorough: bool, seed: u64) {
     // 3. allow_mall is honoured by every entry point (malleable scripts: outside the sane pool)
     let mut fixed = Rng(0xC14A);
     for s in mall.iter().chain(pool.iter().take(12)) { judge_mall(out, s, &mut fixed); }
-    // 3b. a signature contradicting the input's sighash_type field is refused
+    // 3b. OBSERVATION: signatures contradicting the input's sighash_type field (see props.d "observations")
     {
         let mut seen = BTreeSet::new();
         let mut fixed = Rng(0xC14C);
-        for s in pool.iter() { if seen.insert(s.kind.name()) || s.tmpl == "tr(K0)" { judge_sighash_mismatch(out, s, &mut fixed); } }
+        for s in pool.iter() { if seen.insert(s.kind.name()) || s.tmpl == "tr(K0)" { observe_sighash_mismatch(out, s, &mut fixed, &mut judged); } }
+        out.note("observation sighash-mismatch", "an input whose sighash_type field is SINGLE while its signatures carry ALL (taproot: DEFAULT) is finalized by finalize_mut / finalize_mall_mut / finalize_inp_mut / finalize_inp_mall_mut and then extracted; only the deprecated psbt::finalize refuses (WrongSighashFlag), and taproot signatures are checked by nothing; the spends are valid (J spend)".into());
     }
     // 3c. pkh() fragments completed from the signature maps (raw key hashes)
     {
@@ -1759,6 +1823,8 @@ pub fn run(out: &mut Out, thorough: bool, seed: u64) {
         }
         for s in pool.iter().filter(|s| s.tmpl.contains("pkh(") && !matches!(s.kind, Kind::Pkh | Kind::Wpkh | Kind::ShWpkh)) { judge_rawpkh(out, s, &mut fixed); }
     }
+    // 3d. updater, byte level, against the descriptor model
+    emit_update_corr(out, &mut Rng(seed ^ 0xC14E), thorough);
     // 4. adversarial PSBTs
     judge_nopanic(out, &pool, &mut Rng(0xC14B));
     let _ = std::panic::take_hook();
